@@ -69,7 +69,7 @@ pub(crate) mod verif_sym {
     pub static mut T_INITS: usize = 0;
     // log of the first LN transcripts since the last reset (for whole-function harnesses that perform several derivations)
     pub const LN: usize = 10;
-    pub const LB: usize = 64;
+    pub const LB: usize = 96;      // 5 joint randomness parts of 16 bytes (p3_shard_seeds_5_jr) + margin
     pub static mut L_SEED: [[u8; 16]; LN] = [[0; 16]; LN];
     pub static mut L_DST: [[u8; 16]; LN] = [[0; 16]; LN];
     pub static mut L_DST_LEN: [usize; LN] = [0; LN];
